@@ -61,7 +61,19 @@ def oracle (c : MCase) (algo : Algo) (sres : String) (ir : ImplRes) (priorKept :
   -- C10: totality and history independence
   if let some p := ir.panic then bad := bad ++ [("C10", s!"indices variant panicked: {p}")]
   if sres.startsWith "panic" then bad := bad ++ [("C10", s!"score-only variant panicked: {sres}")]
-  if hist ≠ "same" then bad := bad ++ [("C10", s!"result depends on the matcher's history: {hist}")]
+  if hist ≠ "same" then
+    bad := bad ++ [("C10", s!"result depends on the matcher's history: {hist}")]
+    -- the indices a matcher with a history (used for earlier calls / scratch memory overwritten) reported: are they still a witness?
+    if c.nn && !c.n.isEmpty then
+      for part in (hist.splitOn "=").drop 1 do
+        -- part = "<score-only>/<score>:<idx,..>,poisonedXX" or "<score-only>/<score>:<idx,..>)"
+        let body := ((part.splitOn ",poisoned").headD "").replace ")" ""
+        match body.splitOn "/" with
+        | [_, withIdx] =>
+          let r := parseImpl withIdx
+          if r.panic.isNone && r.score.isSome && !validWitnessB c.cfg c.hrep c.h c.n r.idxs then
+            bad := bad ++ [("C02", s!"on a matcher with a history the indices {r.idxs} are not a witness of the match (a fresh matcher reports {ir.idxs})")]
+        | _ => pure ()
   if ir.panic.isSome || sres.startsWith "panic" then return bad
   -- C03: both variants return the same value
   let sScore : Option Nat := if sres = "none" then none else sres.toNat?
